@@ -36,9 +36,11 @@ pub open spec fn kept_or_dead(o: AnnotationStore, n: AnnotationStore) -> bool {
     && (forall|x: int, y: int, h: AnnotationHandle| o.key_annotation_metamap.cell(x, y).contains(h) ==> #[trigger] n.key_annotation_metamap.cell(x, y).contains(h) || !live_a(n.annotations@, h))
     && (forall|x: int, y: int, h: AnnotationHandle| o.data_annotation_metamap.cell(x, y).contains(h) ==> #[trigger] n.data_annotation_metamap.cell(x, y).contains(h) || !live_a(n.annotations@, h))
 }
-/// the removal of an annotation adds nothing to the row of a dataset in dataset_annotation_metamap
+/// the removal of an annotation adds nothing to an index: a cleared row / cell stays cleared
 pub open spec fn no_new_dataset_entries(o: AnnotationStore, n: AnnotationStore) -> bool {
-    forall|x: int| #[trigger] rm_row(o.dataset_annotation_metamap, x).len() == 0 ==> rm_row(n.dataset_annotation_metamap, x).len() == 0
+    (forall|x: int| #[trigger] rm_row(o.dataset_annotation_metamap, x).len() == 0 ==> rm_row(n.dataset_annotation_metamap, x).len() == 0)
+    && (forall|x: int, y: int| (#[trigger] o.key_annotation_metamap.cell(x, y)).len() == 0 ==> n.key_annotation_metamap.cell(x, y).len() == 0)
+    && (forall|x: int, y: int| (#[trigger] o.data_annotation_metamap.cell(x, y)).len() == 0 ==> n.data_annotation_metamap.cell(x, y).len() == 0)
 }
 pub proof fn lemma_kept_trans(a: AnnotationStore, b: AnnotationStore, c: AnnotationStore)
     requires kept_or_dead(a, b), kept_or_dead(b, c), shrinks(b.annotations@, c.annotations@),
@@ -197,16 +199,28 @@ AFTER_TR = '''proof {
         }'''
 
 
-def casc(lst, base=None, keep_cleared=False):
+AFTER_BT = '''proof {
+            let o = *old(self);
+            assert forall|x: AnnotationHandle, h: AnnotationHandle| bt_row(o.annotation_annotation_map, x).contains(h) implies #[trigger] bt_row(self.annotation_annotation_map, x).contains(h) || !live_a(self.annotations@, h) by {
+                if x == handle { let k = choose|k: int| 0 <= k < bt_row(o.annotation_annotation_map, x).len() && bt_row(o.annotation_annotation_map, x)[k] == h; assert(!live_a(self.annotations@, bt_row(o.annotation_annotation_map, handle)[k])); }
+                else { assert(bt_row(self.annotation_annotation_map, x) == bt_row(vx_b.annotation_annotation_map, x)); }
+            }
+            assert(kept_or_dead(o, *self));
+        }'''
+
+
+def casc(lst, base=None, keep_cleared=False, key_row_cleared=False):
     """loop over a pre-collected list of annotation handles: everything processed so far is gone, nothing is created"""
     extra = [('since_phase_start', f'shrinks({base}.annotations@, self.annotations@)')] if base else []
     if keep_cleared:
         extra.append(('dataset_row_stays_cleared', 'rm_row(self.dataset_annotation_metamap, handle.idx() as int).len() == 0'))
+    if key_row_cleared:
+        extra.append(('key_row_stays_cleared', 'forall|y: int| (#[trigger] self.key_annotation_metamap.cell(handle.idx() as int, y)).len() == 0'))
     return dict(invariant=extra + [
         ('gone_so_far', f'forall|j: int| 0 <= j < vx_it.index@ ==> !live_a(self.annotations@, #[trigger] {lst}@[j])'),
         ('shrinks', 'shrinks(old(self).annotations@, self.annotations@)'),
         ('kept_or_dead', 'kept_or_dead(*old(self), *self)'),
-    ], at_end=LOOP_END.replace('LIST', lst), at_end_label='cascade')
+    ], at_end=LOOP_END.replace('LIST', lst) + (''' proof { assert forall|y: int| (#[trigger] self.key_annotation_metamap.cell(handle.idx() as int, y)).len() == 0 by { assert(vx_pre_store.key_annotation_metamap.cell(handle.idx() as int, y).len() == 0); } }''' if key_row_cleared else ''), at_end_label='cascade')
 
 
 def build():
@@ -245,10 +259,14 @@ def build():
            loops={r'vx_it: vx_list1': casc('vx_list1'), r'vx_it: annotations\b': casc('annotations', 'vx_mid')},
            prologue='proof { lemma_kept_refl(*self); } let ghost mut vx_l1: Seq<AnnotationHandle> = Seq::empty(); let ghost mut vx_l2: Seq<AnnotationHandle> = Seq::empty();',
            before=[(r're:if let Some\(map\) = self\.textrelationmap', 'let ghost vx_mid = *self;'),
-                   ('self.resource_annotation_metamap.remove_all(handle);', RES_END, None, 'cascade')],
+                   ('self.resource_annotation_metamap.remove_all(handle);', RES_END + ' let ghost vx_b = *self;', None, 'cascade'),
+                   ('self.textrelationmap.remove_all(handle);', 'let ghost vx_b = *self;', None, 'cascade')],
+           after=[('self.resource_annotation_metamap.remove_all(handle);', AFTER_RM.replace('MAP', 'resource_annotation_metamap'), None, 'cascade'),
+                  ('self.textrelationmap.remove_all(handle);', AFTER_TR.replace('MAP', 'textrelationmap'), None, 'cascade')],
            ensures=[('metadata_annotations_gone', f'r is Ok ==> forall|k: int| 0 <= k < rm_row({O}.resource_annotation_metamap, handle.idx() as int).len() ==> !live_a({N}.annotations@, #[trigger] rm_row({O}.resource_annotation_metamap, handle.idx() as int)[k])'),
                     ('text_annotations_gone', f'r is Ok ==> forall|y: int, k: int| 0 <= k < {O}.textrelationmap.cell(handle.idx() as int, y).len() ==> !live_a({N}.annotations@, #[trigger] {O}.textrelationmap.cell(handle.idx() as int, y)[k])'),
                     ('rows_cleared', f'r is Ok ==> rm_row({N}.resource_annotation_metamap, handle.idx() as int).len() == 0 && forall|y: int| #[trigger] {N}.textrelationmap.cell(handle.idx() as int, y).len() == 0'),
+                    ('index_frame', f'kept_or_dead(*{O}, *{N})'),
                     ('nothing_created', f'shrinks({O}.annotations@, {N}.annotations@)')]),
     ], verus_header='impl AnnotationStore')
     # ---------------------------------------------------------------- removing a dataset
@@ -265,7 +283,7 @@ def build():
                       'if let Some(map) = self.data_annotation_metamap.data.get(handle.as_usize()) {\n let vx_list4 = vx_flatten_rows(map); proof { vx_l4 = vx_list4@; }\n for a_handle in vx_it: vx_list4 { let ghost vx_pre = self.annotations@; let ghost vx_pre_store = *self;'),
                      ('R-forname', r'for a_handle in annotations \{', 'for a_handle in vx_it: annotations { let ghost vx_pre = self.annotations@; let ghost vx_pre_store = *self;'),
                      ('R-forname', r'for a_handle in vx_list2 \{', 'for a_handle in vx_it: vx_list2 { let ghost vx_pre = self.annotations@; let ghost vx_pre_store = *self;')],
-           loops={r'vx_it: annotations\b': casc('annotations'), r'vx_it: vx_list2': casc('vx_list2', 'vx_mid'), r'vx_it: vx_list3': casc('vx_list3', 'vx_mid3', True), r'vx_it: vx_list4': casc('vx_list4', 'vx_mid4', True)},
+           loops={r'vx_it: annotations\b': casc('annotations'), r'vx_it: vx_list2': casc('vx_list2', 'vx_mid'), r'vx_it: vx_list3': casc('vx_list3', 'vx_mid3', True), r'vx_it: vx_list4': casc('vx_list4', 'vx_mid4', True, True)},
            prologue='proof { lemma_kept_refl(*self); } let ghost mut vx_l1: Seq<AnnotationHandle> = Seq::empty(); let ghost mut vx_l2: Seq<AnnotationHandle> = Seq::empty(); let ghost mut vx_l3: Seq<AnnotationHandle> = Seq::empty(); let ghost mut vx_l4: Seq<AnnotationHandle> = Seq::empty();',
            before=[(r're:if let Some\(annotations\) = self\.dataset_annotation_metamap', 'let ghost vx_mid = *self;'),
                    ('self.dataset_annotation_metamap.remove_all(handle);', SET_END + ' let ghost vx_b = *self;', None, 'cascade'),
@@ -279,6 +297,11 @@ def build():
            ensures=[('users_gone', f'r is Ok ==> forall|a: AnnotationHandle| live_a({O}.annotations@, a) && uses_set({O}.annotations@[a.idx() as int].unwrap(), handle) ==> !live_a({N}.annotations@, a)'),
                     ('metadata_annotations_gone', f'r is Ok ==> forall|k: int| 0 <= k < rm_row({O}.dataset_annotation_metamap, handle.idx() as int).len() ==> !live_a({N}.annotations@, #[trigger] rm_row({O}.dataset_annotation_metamap, handle.idx() as int)[k])'),
                     ('row_cleared', f'r is Ok ==> rm_row({N}.dataset_annotation_metamap, handle.idx() as int).len() == 0'),
+                    ('key_annotations_gone', f'r is Ok ==> forall|y: int, k: int| 0 <= k < {O}.key_annotation_metamap.cell(handle.idx() as int, y).len() ==> !live_a({N}.annotations@, #[trigger] {O}.key_annotation_metamap.cell(handle.idx() as int, y)[k])'),
+                    ('data_annotations_gone', f'r is Ok ==> forall|y: int, k: int| 0 <= k < {O}.data_annotation_metamap.cell(handle.idx() as int, y).len() ==> !live_a({N}.annotations@, #[trigger] {O}.data_annotation_metamap.cell(handle.idx() as int, y)[k])'),
+                    ('metadata_rows_cleared', f'r is Ok ==> forall|y: int| (#[trigger] {N}.key_annotation_metamap.cell(handle.idx() as int, y)).len() == 0 && (#[trigger] {N}.data_annotation_metamap.cell(handle.idx() as int, y)).len() == 0'),
+                    # frame: no index loses an entry of an annotation that is still there (the rows of other datasets, resources, keys .. stay)
+                    ('index_frame', f'kept_or_dead(*{O}, *{N})'),
                     ('nothing_created', f'shrinks({O}.annotations@, {N}.annotations@)')]),
     ], verus_header='impl AnnotationStore')
     # ---------------------------------------------------------------- removing an annotation: the annotations that target it go first
@@ -293,10 +316,12 @@ def build():
                      ('R-forname', r'for a_handle in vx_list1 \{', 'for a_handle in vx_it: vx_list1 { let ghost vx_pre = self.annotations@; let ghost vx_pre_store = *self;')],
            loops={r'vx_it: vx_list1': dict(invariant=[('cmp', CMP)] + casc('vx_list1')['invariant'], at_end=casc('vx_list1')['at_end'], at_end_label='cascade')},
            prologue='proof { lemma_kept_refl(*self); } let ghost mut vx_l1: Seq<AnnotationHandle> = Seq::empty();',
-           before=[('self.annotation_annotation_map.remove_all(handle);', 'proof { assert(vx_l1 =~= bt_row(old(self).annotation_annotation_map, handle)); }', None, 'cascade')],
+           before=[('self.annotation_annotation_map.remove_all(handle);', 'proof { assert(vx_l1 =~= bt_row(old(self).annotation_annotation_map, handle)); } let ghost vx_b = *self;', None, 'cascade')],
+           after=[('self.annotation_annotation_map.remove_all(handle);', AFTER_BT, None, 'cascade')],
            requires=[('cmp_laws', CMP)],
            ensures=[('dependents_gone', f'r is Ok ==> forall|k: int| 0 <= k < bt_row({O}.annotation_annotation_map, handle).len() ==> !live_a({N}.annotations@, #[trigger] bt_row({O}.annotation_annotation_map, handle)[k])'),
                     ('row_cleared', f'r is Ok ==> bt_row({N}.annotation_annotation_map, handle).len() == 0'),
+                    ('index_frame', f'kept_or_dead(*{O}, *{N})'),
                     ('nothing_created', f'shrinks({O}.annotations@, {N}.annotations@)')]),
     ], verus_header='impl AnnotationStore')
     return u
